@@ -19,7 +19,7 @@ func jsonLeaves() []any {
 	return []any{nil, true, 0, -1, 1.5, two64, 1e100, "", "a", "é\n\"", "1", "true", []any{}, map[string]any{}}
 }
 
-var jsonKeysQuick = []string{"a", "", "é\n\"", "true"}
+var jsonKeysQuick = []string{"a", "", "true"}
 var jsonKeysThorough = []string{"a", "", "é\n\"", "true", "1"}
 
 // valueGen enumerates every JSON value with exactly n nodes (a leaf, [] and {}
@@ -135,7 +135,7 @@ func (g *valueGen) each(n int, emit func(mk func() any)) {
 }
 
 func enumJSON(e *env) {
-	// quick: <= 4 nodes over 4 keys; thorough: <= 4 nodes over 5 keys and exactly 5 nodes over 3 keys
+	// quick: <= 4 nodes over 3 keys; thorough: <= 4 nodes over 5 keys and exactly 5 nodes over 3 keys
 	type pass struct {
 		keys     []string
 		from, to int
